@@ -13,6 +13,9 @@ extern "C" {
 #include "json_visit.h"
 }
 
+extern "C" {
+#include "json_patch.h"
+}
 extern "C" size_t jsim_ansi_foreach_del(struct json_object *obj, size_t first, int stride, void (*seen)(void *, const char *, struct json_object *), void *ctx);
 
 namespace
@@ -56,7 +59,7 @@ struct C06 : Property
 	{
 		return {"O.replace_keeps_position", "O.reinsert_after_delete_goes_last", "O.delete_absent_key", "O.growth_with_tombstones", "O.delete_current_key_in_foreach", "O.add_ex_key_is_new",
 		        "O.add_ex_constant_key", "O.empty_key", "O.long_key", "O.perllike_hash", "O.default_hash", "O.alloc_failure_leaves_map_unchanged", "L.table_size_1", "L.constant_hash_all_collide",
-		        "L.explicit_resize", "L.tombstone_reuse", "L.alloc_failure_leaves_map_unchanged", "seed_source_consulted", "O.delete_current_member_in_visitor", "O.global_hash_switched_while_object_lives", "seed_source_returned_minus_one_first", "L.delete_entry_two_step", "L.delete_current_entry_in_foreach_safe", "O.delete_current_key_in_ansi_foreach"};
+		        "L.explicit_resize", "L.tombstone_reuse", "L.alloc_failure_leaves_map_unchanged", "seed_source_consulted", "O.delete_current_member_in_visitor", "O.global_hash_switched_while_object_lives", "seed_source_returned_minus_one_first", "L.delete_entry_two_step", "L.delete_current_entry_in_foreach_safe", "O.delete_current_key_in_ansi_foreach", "O.replace_through_json_patch"};
 	}
 	std::map<std::string, int64_t> cfg_defaults() const override { return {{"perllike", 0}, {"first_draws_minus_one", 0}, {"first_real_draw_zero", 0}}; }
 
@@ -456,6 +459,36 @@ struct C06 : Property
 			{
 				// (all keys are looked up in verify_object anyway)
 				cov += "|lookup";
+				// every other "get": replace the value of a live key through the JSON-patch entry point - "a replaced key keeps its position"
+				// holds for every way of replacing
+				std::vector<size_t> simple;
+				for (size_t i = 0; i < model.size(); i++)
+					if (model[i].key.size() >= 2 && model[i].key.size() <= 4 && model[i].key[0] == 'k' && model[i].key.find_first_not_of("0123456789", 1) == std::string::npos)
+						simple.push_back(i);
+				if ((op.arg(1) & 1) && !simple.empty())
+				{
+					size_t pos = simple[(size_t)(op.arg(0) < 0 ? -op.arg(0) : op.arg(0)) % simple.size()];
+					int64_t nid = next_id++;
+					std::string ptxt = "[{\"op\":\"replace\",\"path\":\"/" + model[pos].key + "\",\"value\":" + std::to_string(nid) + "}]";
+					struct json_object *patch = LIB(json_tokener_parse(ptxt.c_str()));
+					struct json_patch_error perr;
+					memset(&perr, 0, sizeof perr);
+					int prc = LIB(json_patch_apply(nullptr, patch, &obj, &perr));
+					LIBV(json_object_put(patch));
+					if (prc != 0)
+						ctx.fail("C06:patch-replace-failed", "op %zu: json_patch_apply replace of live key '%s' returned %d (%s)", oi, model[pos].key.c_str(), prc, perr.errmsg ? perr.errmsg : "");
+					struct json_object *nv = nullptr;
+					if (!LIB(json_object_object_get_ex(obj, model[pos].key.c_str(), &nv)) || !nv)
+						ctx.fail("C06:lookup-mismatch", "op %zu: key '%s' is gone after a patch replace", oi, model[pos].key.c_str());
+					LIBV(json_object_set_userdata(nv, (void *)(intptr_t)nid, on_delete));
+					if (model[pos].val)
+						expect_destroyed.push_back(model[pos].id);
+					model[pos].val = nv;
+					model[pos].id = nid;
+					ctx.probe("O.replace_through_json_patch");
+					ctx.nontrivial = true;
+					cov += "|patch-replace";
+				}
 			}
 			else if (op.kind == "sethash")
 			{
